@@ -943,7 +943,7 @@ func (c *Conn) readOffset(t int64) (offset int64, err error) {
 			return c.wb.writeListOffsetRequestV1(id, c.clientID, c.topic, c.partition, t)
 		},
 		func(deadline time.Time, size int) error {
-			return expectZeroSize(readArrayWith(&c.rbuf, size, func(r *bufio.Reader, size int) (int, error) {
+			size, err := readArrayWith(&c.rbuf, size, func(r *bufio.Reader, size int) (int, error) {
 				// We skip the topic name because we've made a request for
 				// a single topic.
 				size, err := discardString(r, size)
@@ -965,7 +965,12 @@ func (c *Conn) readOffset(t int64) (offset int64, err error) {
 					offset = p.Offset
 					return size, nil
 				})
-			}))
+			})
+			// When the broker reported an error the reading stopped at the
+			// partition that carries it; whatever follows in the response
+			// must be skipped since the connection is kept open after kafka
+			// errors.
+			return expectZeroSize(discardOnKafkaError(&c.rbuf, size, err))
 		},
 	)
 	return
